@@ -139,6 +139,45 @@ func vfH_C06_history() {
 	}
 }
 
+//vf:assume C06-two-sites: two --credentials entries with the same user name and different passwords for two sites; two requests on one keep-alive connection, one to each site in either order (or twice to the same site): each carries exactly the credentials of the entry matching its own target
+
+//vf:harness property=C06 nopanic reach=two-sites-alternating steps=10000000
+func vfH_C06_two_sites() {
+	cfg := HTTPProxyConfig{}
+	cfg.Name = "fw"
+	cfg.ProxyLocalhost = AllowProxyLocalhost
+	creds := []*HostPortUser{
+		{HostPort: HostPort{Host: "a.example", Port: "80"}, Userinfo: url.UserPassword("admin", "secret-a")},
+		{HostPort: HostPort{Host: "b.example", Port: "80"}, Userinfo: url.UserPassword("admin", "secret-b")},
+	}
+	cm, err := NewCredentialsMatcher(creds, vfLog{})
+	vfrt.Assert(err == nil, "two-sites/credentials-accepted")
+	hp := &HTTPProxy{config: cfg, log: vfLog{}, localhost: []string{"localhost"}, transport: &vfRoundTripper{}, creds: cm}
+	if vfrt.Symbolic() {
+		hp.metrics = &httpProxyMetrics{}
+	} else {
+		hp.metrics = newHTTPProxyMetrics(nil, "")
+	}
+	vfrt.Assert(hp.configureProxy() == nil, "two-sites/configured")
+	rt := hp.transport.(*vfRoundTripper)
+	sites := []string{"a.example", "b.example"}
+	pw := map[string]string{"a.example": "secret-a", "b.example": "secret-b"}
+	first, second := sites[vfrt.Choice("first-site", 2)], sites[vfrt.Choice("second-site", 2)]
+	if first != second {
+		vfrt.Reach("two-sites-alternating")
+	}
+	wire := "GET http://" + first + "/1 HTTP/1.1\r\nHost: " + first + "\r\n\r\n" + "GET http://" + second + "/2 HTTP/1.1\r\nHost: " + second + "\r\n\r\n"
+	martian.VfServeConn(hp.proxy, martian.NewVfConn([]byte(wire)))
+	vfrt.Assert(rt.calls == 2, "two-sites/both-forwarded")
+	if rt.calls != 2 {
+		return
+	}
+	for i, site := range []string{first, second} {
+		az := rt.headers[i]["Authorization"]
+		vfrt.Assert(len(az) == 1 && az[0] == vfBasic("admin", pw[site]), "two-sites/each-request-carries-the-credentials-of-its-own-target")
+	}
+}
+
 func vfBasic(user, pass string) string {
 	return "Basic " + base64.StdEncoding.EncodeToString([]byte(user+":"+pass))
 }
